@@ -132,7 +132,12 @@ def check_column(comp, nodes, ks, e):
             expected = viol
             slack = 0.0
             if C.strategy_of(c["solver"]) == "fixpoint" and c["penalty"]["name"] not in RP.CONVEX:
-                slack = 1e-6 * (1 + float(np.max(np.abs(w))))      # accuracy of the brute-force reference prox of non-convex penalties (as in C01)
+                # accuracy of the brute-force reference prox of non-convex penalties: its tie rule accepts w_j as a minimiser when the prox
+                # objectives agree to 1e-12, i.e. distances below ~1e-6 sqrt(1 + |F|)
+                slack = 1e-5 * (1 + float(np.max(np.abs(w))))
+            prob_ = C.problem_of(c)
+            # rounding of the incrementally updated model fit on badly scaled designs (same scale rule as C01)
+            slack += 1e-10 * (1.0 + float(np.abs(prob_["X"]).sum()) * (1.0 + float(np.abs(prob_["y"]).max())))
             if not (abs(sc - expected) <= 1e-9 * max(1.0, abs(expected)) + 1e-12 + slack):
                 out.append(("stop_value_not_violation_of_returned_point", (k, e), sc, expected))
     # entry i of the longest history vs the point returned with budget i+1
